@@ -35,6 +35,7 @@ def Pc.awaited : Pc → Option Nat
       (match c with | .caller _ => k.awaited | _ => none)
   | .pfPollRel _ next => next.awaited
   | .dqWakeWith _ _ _ k => k.awaited
+  | .fdDrop _ k => k.awaited
   | _ => none
 
 /-- the call has not created its erased job yet -/
@@ -51,6 +52,7 @@ def Pc.fresh : Pc → Bool
       (match c with | .caller _ => k.fresh | _ => false)
   | .pfPollRel _ next => next.fresh
   | .dqWakeWith _ _ _ k => k.fresh
+  | .fdDrop _ k => k.fresh
   | _ => false
 
 @[simp] theorem awaited_ctxReady (k : Pc) (c : Ctx) : (ctxReady k c).awaited = (match c with | .caller _ => k.awaited | _ => none) := by
